@@ -118,6 +118,14 @@ def _one_run(run: dict) -> dict:
                 _SHARED["lctx"] = real_create(self)
             return _SHARED["lctx"]
         runners.ArgparseRunner._create_language_context = create
+    real_builder = runners.LanguageContextBuilder
+    if run.get("share_builder"):
+        # library use: ONE LanguageContextBuilder, create() called again after further overrides (each run sets every override again)
+        def builder_factory(*a, **kw):
+            if _SHARED.get("builder") is None:
+                _SHARED["builder"] = real_builder(*a, **kw)
+            return _SHARED["builder"]
+        runners.LanguageContextBuilder = builder_factory
     try:
         extra = list(args.lookup_dir) if args.lookup_dir is not None else []
         runner = runners.ArgparseRunner(args.root_namespace, args, extra)
@@ -138,6 +146,7 @@ def _one_run(run: dict) -> dict:
     finally:
         runners.read_dsdl_namespace = real_reader
         runners.ArgparseRunner._create_language_context = real_create
+        runners.LanguageContextBuilder = real_builder
     gen = None
     if seen.get("generated") is not None:
         outp = pathlib.Path(run["out"]).resolve()
@@ -172,9 +181,9 @@ def _worker(jobfile: str) -> int:
 # =====================================================================================================================
 # harness side
 # =====================================================================================================================
-def make_run(argv, out, cwd, transform=None, edits=None, gen_calls=None, share_lctx=False):
+def make_run(argv, out, cwd, transform=None, edits=None, gen_calls=None, share_lctx=False, share_builder=False):
     return {"argv": [str(a) for a in argv], "out": str(out), "cwd": str(cwd), "transform": transform,
-            "edits": [[str(p), t] for p, t in (edits or [])], "gen_calls": gen_calls, "share_lctx": share_lctx}
+            "edits": [[str(p), t] for p, t in (edits or [])], "gen_calls": gen_calls, "share_lctx": share_lctx, "share_builder": share_builder}
 
 
 # =====================================================================================================================
@@ -223,6 +232,11 @@ def history_stream(ctx, repo_src, root, lookups, langs, edits_spec, quick=True, 
         scen.append(("swap-dependency-same-size-reused-language-context",
                      lambda b, o: [make_run(argv(lang, b, o[0]), o[0], scratch / "cwd", share_lctx=True),
                                    make_run(argv(lang, b, o[1]), o[1], scratch / "cwd", edits=abs_edits(b, "swap"), share_lctx=True)], (), "swap", None))
+        # S3c ONE LanguageContextBuilder: create() + generate with the defaults, then further overrides, create() + generate again
+        bo = ["--configuration", pathlib.Path(__file__).resolve().parent.parent / "corpus" / "C10" / "config" / "builder_override.yaml"]
+        scen.append(("same-builder-create-again-after-overrides",
+                     lambda b, o: [make_run(argv(lang, b, o[0]), o[0], scratch / "cwd", share_builder=True),
+                                   make_run(argv(lang, b, o[1], bo), o[1], scratch / "cwd", share_builder=True)], tuple(bo), None, None))
         # S4 a run with auditing info, then the plain run (other outdir)
         scen.append(("auditing-run-then-plain-run", lambda b, o: [make_run(argv(lang, b, o[0], ["--embed-auditing-info"]), o[0], scratch / "cwd"),
                                                                 make_run(argv(lang, b, o[1]), o[1], scratch / "cwd")], (), None, None))
@@ -268,7 +282,7 @@ def history_stream(ctx, repo_src, root, lookups, langs, edits_spec, quick=True, 
             continue
         # what the fresh run produced must be there with the same bytes (left-overs of earlier runs are another property's subject)
         bad = sorted(k for k, v in fr["files"].items() if hl["files"].get(k) != v)
-        findings.append({**pl, "kind": "differs" if bad else "equal", "files": bad[:8], "n": len(bad), "n_files": len(fr["files"]),
+        findings.append({**pl, "kind": "differs" if bad else "equal", "files": bad[:40], "n": len(bad), "n_files": len(fr["files"]),
                          "sha256": [hl["files"].get(bad[0]), fr["files"].get(bad[0])] if bad else None})
     return findings
 
@@ -479,7 +493,7 @@ FACT_DETAILS = {"file_pp_calls_pure": "file_pp_state_writes", "line_pp_reset_com
                 "file_pp_source_matches_model": "file_pp_source_diffs", "generator_runs_file_pps_once_in_order": "generator_pp_loop_problems",
                 "no_undeclared_ambient_inputs": "ambient_probes", "no_unlisted_shared_containers": "shared_containers",
                 "registered_callables_classified": "unclassified_callables", "registered_callables_as_expected": "unexpected_ambient_callables",
-                "no_unlisted_process_state": "process_state_unlisted", "memo_keys_determine_result": "memo_keys_coarser_than_function", "config_files_read_in_given_order": "config_files_loop"}
+                "no_unlisted_process_state": "process_state_unlisted", "memo_keys_determine_result": "memo_keys_coarser_than_function", "config_files_read_in_given_order": "config_files_loop", "memoised_functions_modelled": "memoised_not_modelled"}
 
 
 def report_source_facts(ctx, info, names):
